@@ -251,8 +251,54 @@ Theorem C10_wiring_setters : forall m w,
 Proof. exact wiring_setters_correct. Qed.
 Print Assumptions C10_wiring_setters.
 
+(** ... and EVERY getter method is the raw getter (<Signal>, or Raw<Signal> when the signal has physical accessors) or the
+    physical getter (<Signal>() float64) of the one signal of THIS message it is named after and returns, in EVERY state,
+    that signal's field / ToPhysical(float64(field)) ([phys_get] = [getter_physical], the Flocq model of ToPhysical) *)
+Theorem C10_wiring_getters : forall m w,
+  getters_wiring_ok m w = true ->
+  Forall (fun g => exists i s, nth_error (msg_signals m) i = Some s /\
+            ((gt_method g = (if has_physical s then raw_prefix else []) ++ s_name s /\
+              forall st, wiring_getter_raw w g st = Some (nth i st 0)) \/
+             (has_physical s = true /\ gt_method g = s_name s /\
+              forall st, wiring_getter_phys m w g st = phys_get m st i)))
+         (w_getters w).
+Proof. exact wiring_getters_correct. Qed.
+Print Assumptions C10_wiring_getters.
+
+(** WHOLE PACKAGE. [p] is the reading of one generated package: the wirings of all its message types, the nd literal and the
+    dispatcher's cases. The checker [package_wiring_ok db p] finds, INSIDE Coq and by name, the wiring of every message of the
+    database (there must be exactly one), checks it at the message's own index ([wiring_ok_c03 mi m w], [wiring_ok_c10 mi m w]),
+    refuses message types the database does not declare and checks the nd table. If it accepts - evaluated on every generated
+    package of every run - then for EVERY message of the database all the per-message theorems above hold ([message_tied m w]:
+    Frame = frame_of, UnmarshalFrame = unmarshal, Reset = reset_state, CopyFrom = copy_from, every setter = raw_set/phys_set,
+    every getter = field/phys_get, for all states, frames and arguments), and there is no other message type *)
+Theorem C10_wiring_package : forall db p,
+  package_wiring_ok db p = true ->
+  (forall mi m, nth_error (db_messages db) mi = Some m ->
+     exists w, filter (fun w => name_eqb (w_name w) (msg_name m)) (p_wirings p) = [w] /\ In w (p_wirings p) /\
+               w_name w = msg_name m /\ w_msg_index w = Z.of_nat mi /\ message_tied m w) /\
+  (forall w, In w (p_wirings p) -> exists m, In m (db_messages db) /\ w_name w = msg_name m).
+Proof. exact package_wiring_correct. Qed.
+Print Assumptions C10_wiring_package.
+
+(** ENUM TYPES. For an accepted package ([enums_ok]) every signal with value descriptions has exactly one enum type
+    <Msg>_<Sig> (underlying type = the signal's primitive type, one constant <Msg>_<Sig>_<slug> per description) whose String()
+    returns, for EVERY value v, [enum_string_spec m s v]: the text of the FIRST value description whose value is v (1-bit
+    signals: value 1 for true, any other value for false), otherwise <Msg>_<Sig>(<v in decimal>) resp. <Msg>_<Sig>(true|false);
+    and the package declares no other enum type *)
+Theorem C10_wiring_enums : forall db p,
+  enums_ok db p = true ->
+  (forall m s, In m (db_messages db) -> In s (msg_signals m) -> has_custom_type s = true ->
+     exists e, filter (fun e => name_eqb (Wiring.e_name e) (enum_type_name m s)) (p_enums p) = [e] /\
+               Wiring.e_name e = enum_type_name m s /\ forall v, Wiring.enum_string e v = Some (enum_string_spec m s v)) /\
+  (forall e, In e (p_enums p) -> exists m s, In m (db_messages db) /\ In s (msg_signals m) /\
+                                             has_custom_type s = true /\ Wiring.e_name e = enum_type_name m s).
+Proof. exact enums_correct. Qed.
+Print Assumptions C10_wiring_enums.
+
 (** non-vacuity: Reset, the five setters and getters of the example message as harness/genwire prints them; a setter that
     converts before saturating (cin = int16 instead of int64) is refused *)
+Definition w_unmarshal_rejects : list nustmt := [NReject (RcNe HId HId); NReject (RcNe HLen HLen); NReject RcRemote; NReject (RcNe HExt HExt)].
 Definition C10_example_wiring (cin3 : name) : wiring :=
   let u8 := [117; 105; 110; 116; 56] in let u16 := [117; 105; 110; 116; 49; 54] in let i16 := [105; 110; 116; 49; 54] in
   let u64 := [117; 105; 110; 116; 54; 52] in let i64 := [105; 110; 116; 54; 52] in
@@ -260,7 +306,7 @@ Definition C10_example_wiring (cin3 : name) : wiring :=
   let fld n := xxx_prefix ++ [n] in
   let set n p b := {| st_method := set_prefix ++ [n]; st_field := fld n; st_param := p; st_body := b |} in
   let get n t := {| gt_method := [n]; gt_field := fld n; gt_result := t; gt_body := GbField |} in
-  {| w_fields := w_fields C03_example_wiring; w_types := []; w_msg_index := 3; w_descs := w_descs C03_example_wiring;
+  {| w_name := [77]; w_fields := w_fields C03_example_wiring; w_types := []; w_msg_index := 3; w_descs := w_descs C03_example_wiring;
      w_init := w_init C03_example_wiring; w_frame := w_frame C03_example_wiring; w_unmarshal := w_unmarshal C03_example_wiring;
      w_reset := [(fld 1, RInt 0); (fld 2, RBool false); (fld 3, RInt 0); (fld 4, RInt 0); (fld 5, RInt 0)];
      w_copy := true;
@@ -273,5 +319,19 @@ Example C10_wiring_nonvacuous :
   match nth_error (w_setters (C10_example_wiring [105; 110; 116; 54; 52])) 2 with
   | Some ns => wiring_setter C03_example_message (C10_example_wiring [105; 110; 116; 54; 52]) ns [9; 0; 0; 0; 0] (-3000)
   | None => None
-  end = Some [9; 0; -2048; 0; 0].
+  end = Some [9; 0; -2048; 0; 0] /\
+  (* a package: the database holds the example message at index 3 (three empty messages before it), one node *)
+  let e n := {| msg_name := [n]; msg_id := n; msg_extended := false; msg_length := 0; msg_send_type := SendNone;
+                msg_description := []; msg_signals := []; msg_sender := []; msg_cycle_time := 0; msg_delay_time := 0 |} in
+  let we n i := {| w_name := [n]; w_fields := []; w_types := []; w_msg_index := i; w_descs := []; w_init := (HId, HExt, HLen);
+                   w_frame := []; w_unmarshal := w_unmarshal_rejects; w_reset := []; w_copy := true; w_setters := []; w_getters := [] |} in
+  let db := {| db_source_file := []; db_version := []; db_messages := [e 1; e 2; e 3; C03_example_message];
+               db_nodes := [{| node_name := [78]; node_description := [] |}] |} in
+  let p := {| p_enums := []; p_wirings := [we 1 0; we 2 1; we 3 2; C10_example_wiring [105; 110; 116; 54; 52]]; p_nodes := [([78], 0)];
+              p_dispatch := [Some [1]; Some [2]; Some [3]; Some [77]; None] |} in
+  package_wiring_ok db p = true /\ dispatch_ok db p = true /\
+  wiring_dispatch db p (frame_of C03_example_message [1; 1; -5; 0; 0x40490FDB]) =
+    Some (Some (C03_example_message, inr [1; 1; -5; 0; 0x40490FDB])) /\
+  (* the same wirings in a package whose md entry of message 3 points at index 2 are refused *)
+  package_wiring_ok db {| p_enums := []; p_wirings := [we 1 0; we 2 1; we 3 2; we 77 2]; p_nodes := [([78], 0)]; p_dispatch := [] |} = false.
 Proof. vm_compute. repeat split; reflexivity. Qed.
